@@ -482,6 +482,43 @@ impl Hist {
         format!("ORevokeAll {} {} {} {} {}", qs(&l.ca), qs(&l.p), qs(&l.pc), qs(&l.ch), msgs_term(&ms))
     }
 
+    /// One request of the child sent the remote way (signed CMS to `CaManager::rfc6492`): a list query, or - `bad` - a
+    /// revocation request for a resource class the parent does not have, which the parent processes and refuses.
+    fn step_child_msg(&mut self, ca: &str, bad: u8) -> StepOut {
+        use std::str::FromStr;
+        use rpki::ca::provisioning::{IssuanceRequest, Message, RequestResourceLimit, RevocationRequest};
+        let l = self.links[ca].clone();
+        // 0: list query; 1: revocation for a class the parent does not have (answered as done); 2: certificate
+        // request for a class the parent does not have (processed and refused: rc-unknown)
+        let kind = ["child_msg:list", "child_msg:revoke-unknown-class", "child_msg:issue-unknown-class"][bad as usize];
+        let Ok(caller) = self.sys().ca(&l.ca) else { return plain("child_msg:skipped", json!({"op": "child_msg", "ca": ca, "skipped": "no such CA"})) };
+        if l.pc == "ta" { return plain("child_msg:skipped", json!({"op": "child_msg", "ca": ca, "skipped": "parent is the TA"})) }
+        let key = caller.id_cert().public_key.key_identifier();
+        let snd = rpki::ca::idexchange::SenderHandle::from_str(&l.ch).expect("sender");
+        let rcp = rpki::ca::idexchange::RecipientHandle::from_str(&l.pc).expect("recipient");
+        let csr = if bad == 2 { caller.repository_contact().ok().map(|rc| rc.repo_info.clone()).and_then(|ri| {
+            let k = self.sys().krill.signer().create_key().ok()?; self.sys().krill.signer().sign_csr(&ri, "no-such-class", &k).ok() }) } else { None };
+        let msg = match (bad, csr) {
+            (0, _) => Message::list(snd, rcp),
+            (2, Some(csr)) => Message::issue(snd, rcp, IssuanceRequest::new("no-such-class".into(), RequestResourceLimit::new(), csr)),
+            _ => Message::revoke(snd, rcp, RevocationRequest::new("no-such-class".into(), key)),
+        };
+        let adm = admission(self.sys(), &l);
+        let r: Result<(), Error> = self.sys().krill.signer().create_rfc6492_cms(msg, &key).map_err(Error::signer)
+            .and_then(|cms| self.sys().krill.ca_manager().rfc6492(&ca_handle(&l.pc), cms.to_bytes(), Some("krill/0.14.5".to_string()), &self.sys().actor, &self.sys().krill).map(|_| ()));
+        let m = match (&adm, &r) {
+            // not admitted (unknown child, other ID key): refused while validating the CMS, nothing recorded
+            (Admit::Refused(e), Ok(())) => format!("MRefused {}", self.it.label(e)),
+            (Admit::Refused(_), Err(e)) => format!("MRefused {}", self.it.label(&label(e))),
+            (Admit::Processed, Ok(())) => "MOk".to_string(),
+            (Admit::Processed, Err(e)) => format!("MFailed {}", self.it.label(&label(e))),
+        };
+        let tag = m.split(' ').next().unwrap().to_string();
+        StepOut { ops: vec![format!("OChildMsg {} {} ({m})", qs(&l.pc), qs(&l.ch))],
+                  desc: json!({"op": "child_msg", "ca": ca, "parent_ca": l.pc, "child_name": l.ch, "bad": bad, "outcome": tag}),
+                  res: Some(r), class: json!({"op": "child_msg", "outcome": tag}), kind: format!("{kind}:{tag}") }
+    }
+
     fn revoke_plan(&self, l: &Link) -> Option<usize> {
         let sys = self.sys();
         let c = sys.ca(&l.ca).ok()?;
@@ -615,9 +652,9 @@ fn run_history(args: &Args, id: u64, seed: u64, n_ops: u64, slash: bool, readd: 
                 done += 1;
                 let leaf = if rng.chance(50) { b.clone() } else { c.clone() };
                 let any = match rng.below(4) { 0 => a.clone(), 1 => b.clone(), 2 => c.clone(), _ => leaf.clone() };
-                let k = ["sync", "repo", "child_remove", "child_readd", "suspend", "roll_init", "roll_activate", "entitle", "restart", "parent_remove", "delete", "roa", "pub_remove", "pub_readd", "republish", "inactive", "undercut"]
-                    [rng.weighted(&[26, 18, 3, 4, 4, 4, 4, 6, 6, 2, 2, 8, 2, if readd { 4 } else { 0 }, 3, if n_inactive < 2 { 3 } else { 0 }, 2])];
-                let who = match k { "child_remove" | "child_readd" | "suspend" | "entitle" | "parent_remove" | "delete" => leaf, "undercut" => a.clone(), "repo" if rng.chance(8) => "ta".to_string(), _ => any };
+                let k = ["sync", "repo", "child_remove", "child_readd", "suspend", "roll_init", "roll_activate", "entitle", "restart", "parent_remove", "delete", "roa", "pub_remove", "pub_readd", "republish", "inactive", "undercut", "child_msg", "child_msg_bad"]
+                    [rng.weighted(&[26, 18, 3, 4, 4, 4, 4, 6, 6, 2, 2, 8, 2, if readd { 4 } else { 0 }, 3, if n_inactive < 3 { 3 } else { 0 }, 2, 1, 3])];
+                let who = match k { "child_remove" | "child_readd" | "suspend" | "entitle" | "parent_remove" | "delete" | "child_msg" | "child_msg_bad" => leaf, "undercut" => a.clone(), "repo" if rng.chance(8) => "ta".to_string(), _ => any };
                 (k.to_string(), who)
             }
         };
@@ -655,6 +692,8 @@ fn run_history(args: &Args, id: u64, seed: u64, n_ops: u64, slash: bool, readd: 
                 h.sys = Some(open_sys(h.opts.clone()));
                 let mut s = plain("restart", json!({"op": "restart"})); s.ops.push("ORestart".into()); s }
             "parent_remove" | "undercut" => h.step_parent_remove(&who),
+            "child_msg" => h.step_child_msg(&who, if rng.chance(50) { 0 } else { 1 }),
+            "child_msg_bad" => h.step_child_msg(&who, 2),
             "delete" => h.step_delete_ca(&who),
             "roa" => { let m = h.ent.get(&who).copied().unwrap_or(1); let bits: Vec<u32> = (0..8).filter(|i| m & (1 << i) != 0).collect();
                 let list = h.roas.entry(who.clone()).or_default();
@@ -697,7 +736,12 @@ fn run_history(args: &Args, id: u64, seed: u64, n_ops: u64, slash: bool, readd: 
         match kind.as_str() {
             "child_remove" | "suspend" | "entitle" | "roll_init" | "roll_activate" if script.is_empty() => { script.push_back(("sync".into(), who.clone())); script.push_back(("sync".into(), who.clone())); }
             "undercut" if script.is_empty() => undercut_follow(&mut script),
-            "inactive" if script.is_empty() => { script.push_back(("sync".into(), if rng.chance(50) { b.clone() } else { c.clone() })); }
+            // a child that the inactivity check marked as suspended calls in: mostly with a request the parent refuses
+            "inactive" if script.is_empty() => {
+                let x = if rng.chance(50) { b.clone() } else { c.clone() };
+                match rng.below(10) { 0..=5 => script.push_back(("child_msg_bad".into(), x.clone())), 6 => script.push_back(("child_msg".into(), x.clone())), _ => {} }
+                if rng.chance(50) { script.push_back(("restart".into(), x.clone())); }
+                script.push_back(("sync".into(), x)); }
             "pub_remove" | "pub_readd" | "roa" if script.is_empty() => { script.push_back(("repo".into(), who.clone())); }
             // a CA created again under the same handle whose very first exchange with the parent is refused
             "delete" if script.is_empty() && rng.chance(60) => {
